@@ -232,6 +232,43 @@ fn check_reopen_beside_strings(case: (u8, u8, u8)) -> Check {
     Ok(())
 }
 
+/// "Setting a returned time again returns it unchanged", across saves: a
+/// package saved with time A is reopened, A is read, B is set and saved with
+/// flush(), the value read at first is set again, and the package is saved
+/// and reopened: it reads A.
+fn check_set_back(case: (u8, u8)) -> Check {
+    let times = [0i64, 1, 1_000_000_000, -1_000_000_000, 50_000_000_000, -11_644_473_600, 1_234_567_890];
+    let at = |secs: i64| -> std::time::SystemTime {
+        if secs >= 0 {
+            std::time::UNIX_EPOCH + std::time::Duration::from_secs(secs as u64)
+        } else {
+            std::time::UNIX_EPOCH - std::time::Duration::from_secs(secs.unsigned_abs())
+        }
+    };
+    let a = at(times[case.0 as usize % times.len()]);
+    let b = at(times[(case.0 as usize + 1 + case.1 as usize % 5) % times.len()]);
+    let e = |what: &str, x: std::io::Error| Fail::new(format!("{P} unexpected-error op={what}"), x.to_string());
+    let mut pkg = Package::create(PackageType::Installer, Cursor::new(Vec::new())).map_err(|x| e("create", x))?;
+    pkg.summary_info_mut().set_creation_time(a);
+    let cur = pkg.into_inner().map_err(|x| e("into_inner", x))?;
+    let mut pkg = Package::open(Cursor::new(cur.into_inner())).map_err(|x| e("open", x))?;
+    let first = pkg.summary_info().creation_time();
+    pkg.summary_info_mut().set_creation_time(b);
+    if case.1 % 2 == 0 {
+        pkg.flush().map_err(|x| e("flush", x))?;
+    }
+    if let Some(t) = first {
+        pkg.summary_info_mut().set_creation_time(t);
+    }
+    let cur = pkg.into_inner().map_err(|x| e("into_inner", x))?;
+    let pkg = Package::open(Cursor::new(cur.into_inner())).map_err(|x| e("reopen", x))?;
+    let last = pkg.summary_info().creation_time();
+    if last != first {
+        return Err(Fail::new(format!("{P} set-back-differs"), format!("a package saved with {:?} was reopened, set to {:?}{}, set back to the value read at first and saved: it reopens with {:?}", first.map(T::of_system), T::of_system(b), if case.1 % 2 == 0 { " and flushed" } else { "" }, last.map(T::of_system))));
+    }
+    Ok(())
+}
+
 fn anchors() -> Vec<i128> {
     // the ends of the representable range, the Unix epoch, and every point
     // where an intermediate quantity of a conversion reaches a 64-bit limit:
@@ -364,6 +401,21 @@ pub fn run(ctx: &Ctx) -> Report {
     }, &mut st);
     rep.push(v);
 
+    // 5b. set, save, reopen, set another, (flush,) set the first again, save
+    let mut backs: Vec<(u8, u8)> = Vec::new();
+    for a in 0..7u8 {
+        for b in 0..6u8 {
+            backs.push((a, b));
+        }
+    }
+    let v = par_enumerate(ctx, "setback", &backs, |c, st| {
+        st.eval();
+        st.nontrivial(&("setback", *c));
+        st.class("reopen:set-back");
+        check_set_back(*c)
+    }, &mut st);
+    rep.push(v);
+
     // 6. beside strings whose encoded length changes with the code page
     let mut beside: Vec<(u8, u8, u8)> = Vec::new();
     for a in 0..8u8 {
@@ -391,6 +443,7 @@ pub fn replay(_ctx: &Ctx, doc: &J) -> Check {
     match kind {
         "time" => check_time(serde_json::from_value(doc["case"].clone()).map_err(bad)?),
         "reopen" => check_reopen(serde_json::from_value(doc["case"].clone()).map_err(bad)?),
+        "setback" => check_set_back(serde_json::from_value(doc["case"].clone()).map_err(bad)?),
         "strings" => check_reopen_beside_strings(serde_json::from_value(doc["case"].clone()).map_err(bad)?),
         "layout" => check_reopen_at(doc["case"].as_u64().unwrap_or(0) as usize),
         "pair" => {
